@@ -27,6 +27,7 @@ func runC07(c *Ctx) {
 	c07R3(c, "C07.R3")
 	c07R4(c, "C07.R4")
 	c07R5(c, "C07.R5")
+	c07R6(c, "C07.R6")
 }
 
 // nilErrGuard: atoms contain (errOf(call) == nil)
